@@ -1,15 +1,15 @@
 /-
   C09 — Change notification contract and freshness of derived state.
-  Property theorems only (model: PgModel/Notify.lean; lemmas: PgProofs/Notify.lean; facts of the
+  Property theorems only (model: PgModel/Notify.lean; lemmas: PgProofs/Notify*.lean; facts of the
   current source: PgGen/C09Facts.lean, regenerated on every run).
 
-  `step ros root recv notifyOn op` is one public call on the node at path `recv`, inside
-  `notify_on_change(notifyOn)`; it returns the new tree (with its memoised values), and the events
-  delivered, in delivery order. `ros` = "sym_rebind resets the memoised facts when it skips the
-  notification" (extracted from the source: `genResetOnSkip`).
+  `step root recv notifyOn op` is one public call on the node at path `recv`, inside
+  `notify_on_change(notifyOn)`; it returns the new tree (with its memoised values) and the events
+  delivered, in delivery order.
 -/
 import PgGen.C09Facts
 import PgProofs.Notify
+import PgProofs.NotifySpec
 namespace Pg.C09
 open T
 open Pg.C08 (Atom Key NotifyKind)
@@ -20,27 +20,83 @@ open Pg.C08 (Atom Key NotifyKind)
 under the flag, `rebind` as the caller says, `update` never, `clear`/`reverse`/`popitem` nobody. -/
 theorem C09_table :
     genNotify .setKey = [.flag, .flag] ∧ genNotify .delKey = [.flag] ∧ genNotify .append = [.flag] ∧
+    genNotify .extend = [.flag, .none, .none] ∧
     genNotify .rebind = [.param, .param, .param] ∧ genNotify .update = [.skip] ∧
     genNotify .clear = [.none, .none] ∧ genNotify .reverse = [.none] ∧ genNotify .popitem = [.none] := by
   decide
 
-/-- A rebind that skips the notification still resets the memoised facts (fix of F18). -/
-theorem C09_reset_table : genResetOnSkip = true := by decide
+/-- Every site that changes the contents of a node (both write primitives, `del` on lists,
+`clear`, `sort`, `reverse`, `popitem`) invalidates the memoised facts of the node and of all its
+ancestors, whether or not a notification is sent (fix of F18 / F54 / F55-stale). -/
+theorem C09_invalidate_table : genInvalidateOnWrite = true ∧ genResetOnSkip = true := by decide
 
 /-! ## Silence -/
 
 /-- Inside `notify_on_change(False)` nothing is delivered, whatever the call. -/
-theorem C09_silent_off (ros : Bool) (root : T) (recv : Path) (op : Op) :
-    (step ros root recv false op).events = [] := by
-  cases op <;> simp only [step, finish, Bool.false_and, Bool.false_eq_true, if_false] <;> (repeat' split) <;> rfl
+theorem C09_silent_off (root : T) (recv : Path) (op : Op) :
+    (step root recv false op).events = [] := by
+  cases op <;> simp only [step, finish, rawStep, Bool.false_and, Bool.false_eq_true, if_false] <;>
+    (repeat' split) <;> rfl
 
 /-- `Dict.update` (skip_notification=True) and the mutators that notify nobody deliver nothing
 even when notification is enabled. -/
-theorem C09_silent_skip (ros n : Bool) (root : T) (recv : Path) (op : Op)
+theorem C09_silent_skip (n : Bool) (root : T) (recv : Path) (op : Op)
     (h : op.kind = .update ∨ op.kind = .clear ∨ op.kind = .reverse ∨ op.kind = .popitem) :
-    (step ros root recv n op).events = [] := by
+    (step root recv n op).events = [] := by
   cases op <;> simp [Op.kind] at h <;>
-    simp only [step, finish, Bool.false_and, Bool.false_eq_true, if_false] <;> (repeat' split) <;> rfl
+    simp only [step, finish, rawStep, Bool.false_and, Bool.false_eq_true, if_false] <;> (repeat' split) <;> rfl
+
+/-! ## The notification contract
+
+`specNotifs root ups` (PgProofs/NotifySpec.lean) is stated without reference to the grouping /
+sorting algorithm: for a batch `ups` of changed locations (each with the path of the node that owns
+it, and its old and new value) every *subscribing* node whose path is a prefix of the owner's path
+-- i.e. every subscribing ancestor-or-self -- gets exactly one event, carrying exactly the changed
+locations at or below it, relative to it, with their old / new values; nobody else gets one. -/
+
+/-- CONTRACT (multiset part), for every well-formed tree, every depth and every batch of updates
+(single accessor writes and batched rebinds alike): the events delivered by the model of
+`_notify_field_updates` are, as a multiset, exactly the specified ones — each affected subscribing
+ancestor once, no other receiver, exact relative locations, old and new values as recorded. -/
+theorem C09_contract (root : T) (hwf : WF root) (ups : List (Update × Path)) :
+    (notifications root ups).Perm (specNotifs root ups) :=
+  contract_perm hwf ups
+
+/-- Every notifying call ends in `finish r' ups notifyOn` where `r'` is the tree after the writes
+and `ups` the updates the write primitive produced; with notification on, its events satisfy the
+contract. -/
+theorem C09_contract_finish (r' : T) (hwf : WF r') (ups : List (Update × Path)) :
+    (finish r' ups true).events.Perm (specNotifs r' ups) := by
+  unfold finish
+  cases ups with
+  | nil => simp [specNotifs, entriesFor]
+  | cons x rest => simpa using contract_perm hwf (x :: rest)
+
+/-- Instance: a batched `rebind` on a dict / object receiver. -/
+theorem C09_contract_rebind (root r' : T) (recv : Path) (pairs : List (Path × T)) (ups : List (Update × Path))
+    (hrecv : ∀ m items, getAt root recv ≠ some (.node m .list items))
+    (hw : writeAll root recv pairs [] = some (r', ups)) (hwf : WF r') :
+    (step root recv true (.rebind pairs)).events.Perm (specNotifs r' ups) := by
+  have hfin := C09_contract_finish r' hwf ups
+  simp only [step]
+  cases hg : getAt root recv with
+  | none => simpa only [hw] using hfin
+  | some t =>
+    cases t with
+    | leaf a => simpa only [hw] using hfin
+    | node m kd items =>
+      cases kd with
+      | list => exact absurd hg (hrecv m items)
+      | dict => simpa only [hw] using hfin
+      | obj => simpa only [hw] using hfin
+
+/-- Exactly once: no receiver occurs twice among the delivered events. -/
+theorem C09_exactly_once (root : T) (hwf : WF root) (ups : List (Update × Path)) :
+    ((notifications root ups).map Event.recv).Nodup := by
+  have h := (contract_perm hwf ups).map Event.recv
+  rw [h.nodup_iff]
+  exact (filterMap_recv_sublist (fun r => (entriesFor r.1 ups).isEmpty)
+    (fun r => { recv := r.2, entries := entriesFor r.1 ups }) (fun _ => rfl) _).nodup hwf.2
 
 /-! ## Freshness of the memoised derived state -/
 
@@ -48,186 +104,116 @@ theorem C09_silent_skip (ros n : Bool) (root : T) (recv : Path) (op : Op)
 def OpFresh : Op → Prop
   | .setKey _ v => Fresh v
   | .append v => Fresh v
+  | .extend vs => ∀ v ∈ vs, Fresh v
   | .rebind pairs => ∀ pv ∈ pairs, Fresh pv.2
   | .update kvs => ∀ kv ∈ kvs, Fresh kv.2
   | _ => True
 
-/-- The calls for which freshness is proved: accessor writes / `del` / `append` with
-notification on; `rebind` and `update` with at most one pair (notification on, or off/skipped
-when `sym_rebind` resets on skip). Batches of several pairs are covered by correspondence only. -/
-def covered (ros n : Bool) : Op → Bool
-  | .setKey _ _ | .delKey _ | .append _ => n
-  | .rebind pairs => decide (pairs.length ≤ 1) && (n || ros)
-  | .update kvs => decide (kvs.length ≤ 1) && ros
-  | _ => false
+private theorem finish_fresh (r' : T) (ups : List (Update × Path)) (n : Bool) (h : Fresh r') :
+    Fresh (finish r' ups n).tree := by
+  unfold finish; split
+  · exact resetAll_fresh ups r' h
+  · exact h
 
-private theorem finish_single_fresh (r' : T) (u : Update) (p : Path) (n rs : Bool)
-    (hreset : Fresh (resetChain r' p)) (hkeep : n = false → rs = false → Fresh r') :
-    Fresh (finish r' [(u, p)] n rs).tree := by
-  unfold finish
-  cases n <;> cases rs <;> simp [resetAll, hreset, hkeep]
-
-/-- FULL STATEMENT (false on the current source, see `C09_fresh_counterexample`): after any
-ordinary mutation at any depth every memoised fact equals a fresh computation. -/
-def C09_fresh_Full : Prop :=
-  ∀ (ros n : Bool) (root : T) (recv : Path) (op : Op),
-    Fresh root → OpFresh op → Fresh (step ros root recv n op).tree
-
-/-- PROVED PART: for the covered calls, at any depth and for every tree, `Fresh` is preserved
-(the reset walks the whole chain from the root to the written node). -/
-theorem C09_fresh_partial (ros n : Bool) (root : T) (recv : Path) (op : Op)
-    (hc : covered ros n op = true) (hf : Fresh root) (hv : OpFresh op) :
-    Fresh (step ros root recv n op).tree := by
+/-- FRESHNESS, full strength: after any modelled call — accessor write, `del`, `append`, batched
+`rebind` with any number of pairs, `update`, `clear`, `reverse`, `popitem` — at any depth, with
+notification on or off, every memoised fact of every node is either not computed or equal to a
+fresh computation on the current contents. -/
+theorem C09_fresh (n : Bool) (root : T) (recv : Path) (op : Op) (hf : Fresh root) (hv : OpFresh op) :
+    Fresh (step root recv n op).tree := by
   cases op with
   | setKey k v =>
-    simp only [covered] at hc; subst hc
     simp only [step]
-    cases hw : writeAt root [] recv k (some v) with
+    cases hw : writeReset root recv k (some v) with
     | none => exact hf
     | some r =>
       obtain ⟨r', u⟩ := r
+      have h1 : Fresh r' := writeReset_fresh hf (fun nv h => by cases h; exact hv) hw
       cases u with
-      | none => simp only []; rw [writeAt_none_unchanged recv root [] k (some v) r' hw]; exact hf
-      | some u =>
-        exact finish_single_fresh r' u recv true false
-          (writeAt_resetChain_fresh recv root [] k (some v) r' (some u) hf (fun nv h => by cases h; exact hv) hw)
-          (fun h => by cases h)
+      | none => exact h1
+      | some u => exact finish_fresh _ _ _ h1
   | delKey k =>
-    simp only [covered] at hc; subst hc
     simp only [step]
-    cases hw : writeAt root [] recv k none with
+    cases hw : writeReset root recv k none with
     | none => exact hf
     | some r =>
       obtain ⟨r', u⟩ := r
+      have h1 : Fresh r' := writeReset_fresh hf (fun nv h => by cases h) hw
       cases u with
-      | none => simp only []; rw [writeAt_none_unchanged recv root [] k none r' hw]; exact hf
-      | some u =>
-        exact finish_single_fresh r' u recv true false
-          (writeAt_resetChain_fresh recv root [] k none r' (some u) hf (fun nv h => by cases h) hw)
-          (fun h => by cases h)
+      | none => exact h1
+      | some u => exact finish_fresh _ _ _ h1
   | append v =>
-    simp only [covered] at hc; subst hc
     simp only [step]
     split
     · next m items hg =>
-      cases hw : writeAt root [] recv (Key.i items.length) (some v) with
+      cases hw : writeReset root recv (Key.i items.length) (some v) with
       | none => exact hf
       | some r =>
         obtain ⟨r', u⟩ := r
+        have h1 : Fresh r' := writeReset_fresh hf (fun nv h => by cases h; exact hv) hw
         cases u with
         | none => exact hf
-        | some u =>
-          exact finish_single_fresh r' u recv true false
-            (writeAt_resetChain_fresh recv root [] _ (some v) r' (some u) hf (fun nv h => by cases h; exact hv) hw)
-            (fun h => by cases h)
+        | some u => exact finish_fresh _ _ _ h1
+    · exact hf
+  | extend vs =>
+    simp only [step]
+    split
+    · next m items hg =>
+      cases hw : writeAll root recv ((List.range vs.length).zip vs |>.map fun (i, v) => ([Key.i (items.length + i)], v)) [] with
+      | none => exact hf
+      | some r =>
+        obtain ⟨r', ups⟩ := r
+        refine finish_fresh _ _ _ (writeAll_fresh recv _ root [] r' ups hf ?_ hw)
+        intro pv h
+        obtain ⟨iv, hiv, rfl⟩ := List.mem_map.1 h
+        exact hv iv.2 (List.of_mem_zip hiv).2
     · exact hf
   | rebind pairs =>
-    simp only [covered, Bool.and_eq_true, decide_eq_true_eq, Bool.or_eq_true] at hc
-    obtain ⟨hlen, hnr⟩ := hc
-    have key : ∀ ps : List (Path × T), ps.length ≤ 1 → (∀ pv ∈ ps, Fresh pv.2) →
-        ∀ r' ups, writeAll root recv ps [] = some (r', ups) →
-          Fresh (finish r' ups n ros).tree ∧ Fresh (finish r' ups.reverse n ros).tree := by
-      intro ps hl hvs r' ups hw
-      match ps, hl with
-      | [], _ =>
-        simp [writeAll] at hw; obtain ⟨h1, h2⟩ := hw; subst h1; subst h2
-        unfold finish; cases n <;> cases ros <;> simp [resetAll, hf]
-      | [(p, v)], _ =>
-        simp only [writeAll] at hw
-        cases hp : p.reverse with
-        | nil => simp [hp] at hw
-        | cons k revParent =>
-          simp only [hp] at hw
-          cases hwa : writeAt root [] (recv ++ revParent.reverse) k (some v) with
-          | none => simp [hwa] at hw
-          | some r =>
-            obtain ⟨r1, u⟩ := r
-            have hvv : Fresh v := hvs (p, v) (by simp)
-            cases u with
-            | none =>
-              simp [hwa, writeAll] at hw; obtain ⟨h1, h2⟩ := hw; subst h1; subst h2
-              rw [writeAt_none_unchanged _ root [] k (some v) r1 hwa]
-              unfold finish; cases n <;> cases ros <;> simp [resetAll, hf]
-            | some u =>
-              simp [hwa, writeAll] at hw; obtain ⟨h1, h2⟩ := hw; subst h1; subst h2
-              have hr := writeAt_resetChain_fresh _ root [] k (some v) r1 (some u) hf
-                (fun nv h => by cases h; exact hvv) hwa
-              have hk : n = false → ros = false → Fresh r1 := by
-                intro h1 h2; rcases hnr with h | h <;> simp_all
-              exact ⟨finish_single_fresh r1 u _ n ros hr hk, by
-                simpa using finish_single_fresh r1 u _ n ros hr hk⟩
     simp only [step]
-    have hrev : pairs.reverse.length ≤ 1 := by simpa using hlen
-    have hvr : ∀ pv ∈ pairs.reverse, Fresh pv.2 := fun pv h => hv pv (by simpa using h)
     split
     · cases hw : writeAll root recv pairs.reverse [] with
       | none => exact hf
-      | some r => exact (key pairs.reverse hrev hvr r.1 r.2 (by simp [hw])).2
+      | some r =>
+        exact finish_fresh _ _ _ (writeAll_fresh recv pairs.reverse root [] r.1 r.2 hf
+          (fun pv h => hv pv (by simpa using h)) (by simp [hw]))
     · cases hw : writeAll root recv pairs [] with
       | none => exact hf
-      | some r => exact (key pairs hlen hv r.1 r.2 (by simp [hw])).1
+      | some r => exact finish_fresh _ _ _ (writeAll_fresh recv pairs root [] r.1 r.2 hf hv (by simp [hw]))
   | update kvs =>
-    simp only [covered, Bool.and_eq_true, decide_eq_true_eq] at hc
-    obtain ⟨hlen, hros⟩ := hc
-    subst hros
     simp only [step]
     cases hw : writeAll root recv (kvs.map fun (k, v) => ([k], v)) [] with
     | none => exact hf
     | some r =>
       obtain ⟨r', ups⟩ := r
-      match kvs, hlen with
-      | [], _ =>
-        simp [writeAll] at hw; obtain ⟨h1, h2⟩ := hw; subst h1; subst h2
-        simp [finish, resetAll, hf]
-      | [(k, v)], _ =>
-        have hvv : Fresh v := hv (k, v) (by simp)
-        simp only [List.map, writeAll, List.reverse_cons, List.reverse_nil, List.nil_append,
-          List.append_nil] at hw
-        cases hwa : writeAt root [] recv k (some v) with
-        | none => simp [hwa] at hw
-        | some r =>
-          obtain ⟨r1, u⟩ := r
-          cases u with
-          | none =>
-            simp [hwa, writeAll] at hw; obtain ⟨h1, h2⟩ := hw; subst h1; subst h2
-            rw [writeAt_none_unchanged _ root [] k (some v) r1 hwa]
-            simp [finish, resetAll, hf]
-          | some u =>
-            simp [hwa, writeAll] at hw; obtain ⟨h1, h2⟩ := hw; subst h1; subst h2
-            exact finish_single_fresh r1 u _ false true
-              (writeAt_resetChain_fresh _ root [] k (some v) r1 (some u) hf (fun nv h => by cases h; exact hvv) hwa)
-              (fun _ h => by cases h)
-  | clear => simp [covered] at hc
-  | reverse => simp [covered] at hc
-  | popitem => simp [covered] at hc
+      refine finish_fresh _ _ _ (writeAll_fresh recv _ root [] r' ups hf ?_ hw)
+      intro pv h
+      obtain ⟨kv, hkv, rfl⟩ := List.mem_map.1 h
+      exact hv kv hkv
+  | clear =>
+    exact mapAt_resetChain_fresh rawClear (fun _ => rfl)
+      (fun m kd items _ => ⟨[], rfl, by simp [FreshItems]⟩) recv root hf
+  | reverse =>
+    exact mapAt_resetChain_fresh rawReverse (fun _ => rfl)
+      (fun m kd items h => ⟨_, rfl, freshItems_reindex _ (freshItems_reverse _ h)⟩) recv root hf
+  | popitem =>
+    exact mapAt_resetChain_fresh rawPopitem (fun _ => rfl)
+      (fun m kd items h => ⟨_, rfl, freshItems_dropLast _ h⟩) recv root hf
 
 /-- A root dict whose cache is filled, holding one leaf. -/
 def exRoot : T :=
   .node { id := 1, sub := true, cache := some [([Key.s "k"], Atom.int 1)] } .dict [(Key.s "k", .leaf (.int 1))]
 
-/-- COUNTEREXAMPLE (known findings F55 / F54): `clear()` — and an accessor write inside
-`notify_on_change(False)` — leave the memoised value of the container stale. Replayed on the real
-code by the witnesses of findings/C09.json. -/
-theorem C09_fresh_counterexample : ¬ C09_fresh_Full := by
-  intro h
-  have := h true true exRoot [] .clear (by simp [exRoot, Fresh, FreshItems, deriveItems]) trivial
-  simp [step, mapAt, rawClear, exRoot, Fresh, FreshItems, deriveItems] at this
-
-theorem C09_fresh_counterexample_accessor_off :
-    ¬ Fresh (step true exRoot [] false (.setKey (Key.s "k") (.leaf (.int 2)))).tree := by
-  simp [step, writeAt, exRoot, lookup, atomEq, setKv, finish, Fresh, FreshItems, deriveItems]
-
-/-- Before the fix of F18 (`ros = false`) `Dict.update` had the same effect; with the reset it
-is fresh (instance of `C09_fresh_partial`). -/
-theorem C09_update_stale_without_reset :
-    ¬ Fresh (step false exRoot [] true (.update [(Key.s "k", .leaf (.int 2))])).tree := by
-  simp [step, writeAll, writeAt, exRoot, lookup, atomEq, setKv, finish, Fresh, FreshItems, deriveItems]
+/-- Why the invalidation matters (the state of the code before the fixes): a write that does not
+reset the chain leaves the memoised value of the container stale. -/
+theorem C09_stale_without_invalidation :
+    ∃ r u, writeAt exRoot [] [] (Key.s "k") (some (.leaf (.int 2))) = some (r, some u) ∧ ¬ Fresh r := by
+  refine ⟨_, _, rfl, ?_⟩
+  simp [Fresh, FreshItems, deriveItems, setKv]
 
 /-! Non-vacuity -/
 example : Fresh exRoot := by simp [exRoot, Fresh, FreshItems, deriveItems]
-example : covered true false (.update [(Key.s "k", .leaf (.int 2))]) = true := by decide
-example : (step true exRoot [] true (.setKey (Key.s "k") (.leaf (.int 2)))).events.length = 1 := by
-  simp [step, writeAt, exRoot, lookup, atomEq, setKv, finish, notifications, groupAll, chainSubs, addToGroups,
-    sortDesc, insertDesc, relPath]
+example : WF exRoot := by simp [WF, exRoot, KeysNodup, KeysNodupItems, allSubs, allSubsItems]
+example : (step exRoot [] true (.setKey (Key.s "k") (.leaf (.int 2)))).events.length = 1 := by
+  decide
 
 end Pg.C09
